@@ -85,9 +85,10 @@ def RefOk (hp : Heap) (b : Nat) : Prop := (xidOf hp b).isSome = true ∧ xidOf h
 /-- the `elements` of an FSArray: no null element (S1) -/
 def FsElems (hp : Heap) (ev : Val) : Prop := ∃ l : List Nat, ev = .refs (l.map some) ∧ ∀ b ∈ l, RefOk hp b
 
-/-- the names the codec treats specially are not names of collection features -/
+/-- the names the codec treats specially are not names of collection features; a collection feature may be one of the
+    reserved features `self_` / `type_` (declared as `self` / `type`, `ResOk`) -/
 def NameOk (f : Feature) : Prop :=
-  f.reserved = false ∧ f.name ≠ "xmiID" ∧ f.name ≠ "type" ∧ f.name ≠ "self" ∧ f.name ≠ ID ∧ f.name ≠ "sofa"
+  ResOk f ∧ f.name ≠ "xmiID" ∧ f.name ≠ "type" ∧ f.name ≠ "self" ∧ f.name ≠ ID ∧ f.name ≠ "sofa"
 
 /-- a shared collection feature: the value is a reference to a structure of its own -/
 def SharedFeat (K : Consts) (ts : TypeSystem) (hp : Heap) (o : Obj) (f : Feature) : Prop :=
